@@ -139,6 +139,10 @@ module Z :
 
   val ltb : z -> z -> bool
 
+  val geb : z -> z -> bool
+
+  val gtb : z -> z -> bool
+
   val eqb : z -> z -> bool
 
   val abs : z -> z
@@ -152,6 +156,8 @@ module Z :
   val pos_div_eucl : positive -> z -> z * z
 
   val div_eucl : z -> z -> z * z
+
+  val modulo : z -> z -> z
 
   val ggcd : z -> z -> z * (z * z)
 
@@ -266,6 +272,8 @@ val nq : nat -> q
 
 val qb : q -> bool
 
+val bq : bool -> q
+
 val qqc : q -> qc
 
 val qcq : qc -> q
@@ -355,6 +363,62 @@ val etdrk0_step : ops -> ('a1 -> car) -> ('a1 -> car) -> 'a1 -> car
 
 val order_dispatch : z -> nat option
 
+val rep : z list -> z -> z list
+
+val shape_eqb : z list -> z list -> bool
+
+val all_eqb : z list -> bool
+
+val gen_spatial_shape : z -> z -> z list
+
+val base_call_raises : z -> z -> z -> z list -> bool
+
+val repeated_call_raises : z -> z -> z -> z list -> bool
+
+val poisson_call_raises : z -> z -> z list -> bool
+
+val laplace_order_raises : z -> bool
+
+val gip_raises : z -> z -> z list -> bool
+
+val make_incompressible_raises : z list -> bool
+
+val ifft_raises : z -> bool -> bool -> z list -> bool
+
+val ic_options_raise : bool -> bool -> bool -> bool
+
+val spatial_norm_raises : bool -> z -> bool
+
+val fourier_norm_raises : bool -> z -> bool
+
+val general_nonlin_raises : z -> bool
+
+val general_nonlin_stepper_raises : z -> bool
+
+val vorticity_conv_raises : z -> bool
+
+val projected_conv_raises : z -> bool
+
+val ns_vorticity_raises : z -> bool
+
+val kolmogorov_vorticity_raises : z -> bool
+
+val ns_velocity_raises : z -> bool
+
+val kolmogorov_velocity_raises : z -> bool
+
+val general_vorticity_raises : z -> bool
+
+val gray_scott_raises : z list -> bool
+
+val convection_cons_raises : z -> z list -> bool
+
+val convection_noncons_raises : z -> z list -> bool
+
+val random_sine_raises : z -> bool -> bool -> bool -> bool
+
+val stack_sub_raises : z -> z list -> bool
+
 val aff : z -> z -> z -> z
 
 val affx : z -> z -> z -> z
@@ -380,5 +444,9 @@ val test_nl : nat -> (nat -> car) -> nat -> car
 val chunks : nat -> nat -> 'a1 list -> 'a1 list list
 
 val run_c02 : z -> q list -> q list
+
+val zs : q list -> z list
+
+val run_c20 : z -> q list -> q list
 
 val run : z -> q list -> q list
